@@ -69,6 +69,19 @@ fn pool(seed: u64, n: usize) -> Vec<Cfg> {
             }
             v.push(d);
         }
+        if i % 4 == 3 && v.len() < n {
+            // the same ranges and scope on another flop, right after the original: same seats, turn and river cards mostly the same
+            let mut d = c.clone();
+            let mut f = d.flop;
+            let mut k = (f[0] + 4) % 52;
+            let busy: Vec<usize> = d.ranges.iter().flat_map(|r| r.iter().flat_map(|e| [e.a, e.b])).collect();
+            while f.contains(&k) || busy.contains(&k) {
+                k = (k + 1) % 52;
+            }
+            f[0] = k;
+            d.flop = f;
+            v.push(d);
+        }
         if v.len() >= n {
             break;
         }
@@ -160,13 +173,55 @@ pub fn record_c15(args: &Args, mut out: Out) -> usize {
     // twins: two live iterators over the same combos seat by seat, differing only in weights, created one right after
     // the other, called alternately (both creation orders)
     for i in 0..npool.saturating_sub(1) {
-        let same = p[i].flop == p[i + 1].flop
-            && p[i].ranges.len() == p[i + 1].ranges.len()
+        let same = p[i].ranges.len() == p[i + 1].ranges.len()
             && p[i].ranges.iter().zip(p[i + 1].ranges.iter()).all(|(a, b)| a.len() == b.len() && a.iter().zip(b.iter()).all(|(x, y)| x.a == y.a && x.b == y.b));
         if same {
             let sched: Vec<usize> = (0..24).map(|k| 1 + k % 2).collect();
             inter_event(&p, &[i, i + 1], &sched, &solo_line, &mut out);
             inter_event(&p, &[i + 1, i], &sched, &solo_line, &mut out);
+        }
+    }
+    // churn: one iterator is advanced a little, then 80 evaluators over 80 other flops are created and advanced one step
+    // (kept alive), then the first one is drained
+    for round in 0..2usize {
+        // an unscoped configuration (a complete run: more than 400 showdowns)
+        let unscoped: Vec<usize> = (0..npool).filter(|&i| !p[i].scoped).collect();
+        if unscoped.is_empty() {
+            break;
+        }
+        let a = unscoped[round % unscoped.len()];
+        let cfg = p[a].clone();
+        let mut flops: Vec<[usize; 3]> = vec![];
+        for i in 0..80usize {
+            let f = [(i * 7) % 52, (i * 7 + 11 + i / 8) % 52, (i * 7 + 29 + i / 3) % 52];
+            if f[0] != f[1] && f[1] != f[2] && f[0] != f[2] {
+                flops.push(f);
+            }
+        }
+        let r = guarded(move || {
+            let mut first = cfg.evaluator().into_iter();
+            let mut results = vec![];
+            for _ in 0..5 {
+                results.push(first.next().map(|sd| list(&item(&sd))).unwrap_or("[]".to_string()));
+            }
+            let mut others = vec![];
+            for f in &flops {
+                let c = Cfg { flop: *f, ranges: vec![vec![crate::flop::Entry { a: (f[0] + 1) % 52, b: (f[0] + 2) % 52, m: 1, e: 0 }]], from: (0, 1), to: (0, 3), scoped: true };
+                if c.ranges[0][0].a != c.ranges[0][0].b && !f.contains(&c.ranges[0][0].a) && !f.contains(&c.ranges[0][0].b) {
+                    let mut it = c.evaluator().into_iter();
+                    let _ = it.next();
+                    others.push(it);
+                }
+            }
+            for _ in 0..400 {
+                results.push(first.next().map(|sd| list(&item(&sd))).unwrap_or("[]".to_string()));
+            }
+            (results, others.len())
+        });
+        let sched: Vec<usize> = vec![1; 405];
+        match r {
+            Some((results, _)) => out.line(&format!("{{\"op\":\"inter\",\"ids\":[{}],\"sched\":{},\"results\":[{}],\"churn\":80}}", solo_line[a], list(&sched), results.join(","))),
+            None => out.line(&format!("{{\"op\":\"inter\",\"ids\":[{}],\"sched\":{},\"results\":[],\"churn\":80}}", solo_line[a], list(&sched))),
         }
     }
     // random schedules over 2..6 live iterators until all are exhausted (+ a few calls more)
